@@ -19,6 +19,24 @@ fn width_module() -> String {
     format!("Widths DEFINITIONS AUTOMATIC TAGS ::= BEGIN\nHolder ::= SEQUENCE {{ {} }}\n{}\nEND\n", comps.join(",\n  "), named.join("\n"))
 }
 
+/// does the module import anything? (comments are skipped roughly: good enough to select stand-alone modules)
+fn has_imports(text: &str) -> bool {
+    let mut clean = String::new();
+    for line in text.lines() {
+        clean.push_str(line.split("--").next().unwrap_or(""));
+        clean.push('\n');
+    }
+    let mut rest = clean.as_str();
+    while let Some(p) = rest.find("IMPORTS") {
+        let after = &rest[p + 7..];
+        match after.find(';') {
+            Some(q) if after[..q].trim().is_empty() => rest = &after[q..],
+            _ => return true,
+        }
+    }
+    false
+}
+
 /// the same tokens, one item per line, so that a diagnostic's line names the item it is about
 fn one_item_per_line(text: &str) -> String {
     use quote::ToTokens;
@@ -66,6 +84,22 @@ pub fn drive(args: &[String]) -> i32 {
             }
         }
     }
+    // real-world modules of the repository that stand alone (no IMPORTS) -- beyond the generator grammar
+    if let Some(dir) = util::arg(args, "--corpus") {
+        let stride: usize = util::arg(args, "--corpus-stride").and_then(|s| s.parse().ok()).unwrap_or(6);
+        let mut files: Vec<std::path::PathBuf> = std::fs::read_dir(dir).map(|d| d.flatten().map(|e| e.path()).collect()).unwrap_or_default();
+        files.sort();
+        for (k, f) in files.iter().enumerate() {
+            if k % stride != 0 {
+                continue;
+            }
+            let Ok(text) = std::fs::read_to_string(f) else { continue };
+            if has_imports(&text) {
+                continue;
+            }
+            jobs.push((vec![text], 0, "corpus"));
+        }
+    }
     for (i, s) in sets.iter().enumerate() {
         let t = Table::from_json(s);
         let src: Vec<String> = (1..=t.mods.tagdef.len()).map(|m| t.module_text(m, None)).collect();
@@ -73,12 +107,14 @@ pub fn drive(args: &[String]) -> i32 {
             jobs.push((src.clone(), (i * 7 + k * 29) % cfgs.len(), "generated"));
         }
     }
+    let default_cfg = cfgs.iter().find(|c| c["cfg"]["opaque"] == true && c["cfg"]["wild"] == false && c["cfg"]["from"] == false && c["cfg"]["nostd"] == false
+                                       && c["cfg"]["imports"] == 0 && c["cfg"]["ann"] == "default").cloned().expect("default configuration");
     let idx: Vec<usize> = (0..jobs.len()).collect();
     let plan: Vec<Value> = util::par_chunks(&idx, 8, util::threads(), |_, chunk| {
         run::install_panic_hook();
         chunk.iter().map(|&i| {
             let (src, j, what) = &jobs[i];
-            let mut cfgv = cfgs[*j].clone();
+            let mut cfgv = if *what == "corpus" { default_cfg.clone() } else { cfgs[*j].clone() };
             // custom imports name items of the scratch crate
             cfgv["custom_imports"] = json!(cfgv["custom_imports"].as_array().unwrap().iter().map(|x| format!("crate::{}", x.as_str().unwrap())).collect::<Vec<_>>());
             let (o, _) = run::compile_rasn(src, config_of(&cfgv));
